@@ -27,7 +27,9 @@ from vmon.res import exc_name
 ID_NAMES = ["c0", "c1", "c2", "c3", "c4", "k", "x", "y"]
 ODD_NAMES = ["a b", "1x", "items", "count", "sort", "nrow", "keys", "update", "values",
              # names of class-level attributes (not methods) of the frame class, and the empty name
-             "COLUMN_PLACEHOLDER", "ATTRIBUTES", "ncol", "columns", ""]
+             "COLUMN_PLACEHOLDER", "ATTRIBUTES", "ncol", "columns", "",
+             # the name of the first parameter of every method (a keyword argument of that name must still reach **kwargs)
+             "self", "self"]
 
 class _Tag(str):
     """A str subclass, as libraries use for tagged / validated strings."""
